@@ -396,7 +396,7 @@ class World:
         return not self.viol and len(self.msgs) <= self.p.get("max_msgs", 8)
 
     # -- state hash -------------------------------------------------------------
-    def _node_canon(self, nm, ren):
+    def _node_canon(self, nm, ren, sig=None):
         nd = self.nodes[nm]
         g = ren.get
         try:
@@ -410,7 +410,7 @@ class World:
             priv = ("vars", _rename(tuple(sorted(
                 (k, repr(freeze(val)) if not isinstance(val, (Event, Network, list)) else type(val).__name__)
                 for k, val in vars(nd).items() if k not in ("_network", "_peers", "_clock", "_state_machine"))), ren))
-        return (g(nm, nm),) + self._sig(nm) + (priv,)
+        return (g(nm, nm),) + (sig if sig is not None else self._sig(nm)) + (priv,)
 
     def _sig(self, nm):
         """Name-free part of a node's state (public properties + harness bookkeeping)."""
@@ -421,9 +421,10 @@ class World:
                 lg.commit_index, tuple(self.sms[nm].applied),
                 tuple(sorted(t.event_type for t in self.timers[nm] if not t.cancelled)), nm in self.down)
 
-    def _canon_named(self, ren):
+    def _canon_named(self, ren, sigs=None):
         g = ren.get
-        return (tuple(sorted(self._node_canon(nm, ren) for nm in self.names)),
+        sigs = sigs or {}
+        return (tuple(sorted(self._node_canon(nm, ren, sigs.get(nm)) for nm in self.names)),
                 tuple(sorted((et, tuple(g(x, x) for x in nmz), rest) for _ev, _k, et, nmz, rest in self.msgs)),
                 tuple(sorted((t, g(x, x)) for t, x in self.g_leader.items())),
                 tuple(sorted(self.g_commit.items())),
@@ -439,13 +440,14 @@ class World:
         are first ordered by their name-free signature; only ties are permuted (same minimum)."""
         if not self.p.get("symmetry", True):
             return repr(self._canon_named({}))
-        sigs = sorted((repr(self._sig(nm)), nm) for nm in self.names)
+        sg = {nm: self._sig(nm) for nm in self.names}
+        sigs = sorted((repr(sg[nm]), nm) for nm in self.names)
         groups = [[nm for _s, nm in grp] for _k, grp in itertools.groupby(sigs, key=lambda x: x[0])]
         best = None
         for combo in itertools.product(*[list(itertools.permutations(grp)) for grp in groups]):
             order = [nm for grp in combo for nm in grp]
             ren = {nm: f"n{i}" for i, nm in enumerate(order)}
-            r = repr(self._canon_named(ren))
+            r = repr(self._canon_named(ren, sg))
             if best is None or r < best:
                 best = r
         return best
@@ -520,10 +522,6 @@ WORLDS = {
     # leader change from "n0 leads term 1 and holds one entry nobody else has"
     "change": dict(prefix=ELECT_N0 + [("submit", "n0")], timeouts=2, max_term=3, submits=1, hbs=1, max_msgs=6),
     "change-hb2": dict(prefix=ELECT_N0 + [("submit", "n0")], timeouts=2, max_term=3, submits=1, hbs=2, max_msgs=5),
-    # one step later: n1 has just won term 2 with n2's vote (its first AppendEntries and its RequestVote to n0 in flight)
-    "change2": dict(prefix=ELECT_N0 + [("submit", "n0"), ("timeout", "n1"), ("msg", "RequestVote", "n1", "n2"),
-                                       ("msg", "VoteResponse", "n2", "n1")],
-                    timeouts=1, max_term=3, submits=1, hbs=1, max_msgs=5),
     # same, but the entry reached one follower before the leader changes
     "change-half": dict(prefix=ELECT_N0 + [("submit", "n0"), ("hb", "n0"), ("msg", "AppendEntries", "n0", "n1"),
                                            ("msg", "AppendEntriesResponse", "n1", "n0"),
@@ -874,7 +872,7 @@ def live_jobs(k, bound):
 # ---------------------------------------------------------------------------
 # (driver name, world, overrides, max_states) — biggest first (they start first in the pool)
 QUICK_WORLDS = [
-    ("change2", "change2", None, 300_000),
+    ("change-t2", "change", dict(timeouts=2, max_term=3, hbs=0, max_msgs=4), 300_000),
     ("change-t1", "change", dict(timeouts=1, max_term=2, hbs=1), 300_000),
     ("fig8", "fig8", dict(max_msgs=4), 300_000),
     ("stale-resp5", "stale-resp5", dict(max_msgs=5), 300_000),
@@ -892,7 +890,6 @@ THOROUGH_WORLDS = [
     ("elect5", "elect5", dict(max_msgs=8), 120_000),
     ("late-vote0", "late-vote0", None, 600_000),
     ("late-vote", "late-vote", None, 600_000),
-    ("change2", "change2", dict(hbs=2, max_msgs=6), 600_000),
     ("elect4", "elect", dict(n=4, timeouts=2, max_msgs=9), 600_000),
     ("elect", "elect", None, 600_000),
     ("repl", "repl", dict(submits=3, hbs=3), 600_000),
